@@ -31,6 +31,9 @@ def trM : Nat → Val → Option Val
   | 5, .struct [v] => some (.struct [v])
   | 6, .struct [.str k, .int v] => some (.map (some [(.str k, .int v)]))
   | 7, .struct [p] => some p
+  | 8, .struct [v] => some v
+  | 9, .struct [v] => some v
+  | 10, .byteArr b => some (.str b)
   | _, _ => none
 
 def trU : Nat → Val → Option Val
@@ -41,6 +44,9 @@ def trU : Nat → Val → Option Val
   | 5, .struct [v] => some (.struct [v])
   | 6, .map (some [(.str k, .int v)]) => some (.struct [.str k, .int v])
   | 7, p => some (.struct [p])
+  | 8, v => some (.struct [v])
+  | 9, v => some (.struct [v])
+  | 10, .str s => if s.length == 4 then some (.byteArr s) else none
   | _, _ => none
 
 def trLib : Trs := ⟨trM, trU⟩
